@@ -5,6 +5,15 @@ ALL = ["C%02d" % i for i in range(1, 21)]
 
 # id -> (level text, level note, technique)
 CLAIMED = {
+ "C01": ("Decides structural necessary conditions of header acceptance on every path of the verifier (consensus/ucon, core/types): (R1) thresholds reaching VrfVerifySortition/VrfVerifyPriority/OverThreshold derive from protocol parameters, never from header-carried consensus data; (R2) non-nil/kind/online tests dominate counting a vote and accepting the proposer; (R3) every accepting return of verifyVotes passed the quorum test on an accumulator that only grows by the seat count of a successful sortition check, once per signer, plus the aggregate signature over hash|round|index; (R4) every accepting return of verifyConsensusFieldMain and its wrappers passed priority, precommit and certificate checks; (R5) the block hash excludes only Validator/Signature/Certificate and the quorum fractions are 0.685/0.585. It does not decide the soundness of BLS/VRF or the arithmetic of choose().",
+         "Trusted: go/types + go/ssa, the anchor tables in ycheck/rules_c01.go; VRF/BLS primitives assumed to meet their contracts.",
+         "SSA dominance gates, return-path (EXIT) analysis with edge facts, backward provenance slices, access-path identity"),
+ "C02": ("Decides structural necessary conditions of vote-once on consensus/ucon: (S1) the vote is gossiped only on the nil edge of UpdateVoteData, which succeeds only after alreadyVoted==false, db.Put==nil and the mark increment; (S2) the validator's key fields reach a signing call only in six tabled functions and the vote signers have one caller each; (S3) every vote kind passed to vote() is replayed by NewVoteDB (two records for NextIndex); (S4) mark resets go with round/roundIndex assignments; (S5) once-only latches are set on the nil edge of vote. It does not decide crash histories as such.",
+         "Trusted: go/types + go/ssa; Database.Put durable on nil; tables in ycheck/rules_c02.go.",
+         "SSA dominance gates, key-use confinement by provenance of signing operands, constant-set exhaustiveness, always-with pairing"),
+ "C03": ("Decides structural necessary conditions of quorum-driven escalation on consensus/ucon: (Q1) every escalation in judgeVoteCount is dominated by OverThreshold on its own (count, threshold) and has no other caller; (Q2) newVote in processVoteMsg is dominated by signature, sender-match, stake-lookup, sortition and not-yet-voted gates, stores the verified weight, and judgeVoteCount consumes exactly that vote's total; (Q3) the installed verifiers return nil only on a successful VRF verification; (Q4) equivocator weight is removed with the flag and weight is added once per address; (Q5) the vote payload layout agrees at the signing, verifying and slashing sites; (Q6) live thresholds derive from protocol parameters. It does not decide event interleavings.",
+         "Trusted: go/types + go/ssa; Voter methods run under Voter.lock from the event loop; tables in ycheck/rules_c03.go.",
+         "SSA dominance gates with boolean-flag expansion, EXIT analysis with callee summaries, sibling payload-shape comparison, provenance"),
  "C09": ("Decides structural necessary conditions of snapshot/revert exactness on every path of core/state: (J1) every instruction changing revertable state is journaled on the same paths or lies in a revert/lifecycle/raw-setter function, with raw setters checked at each call site; (J2) the undo entry appended restores every key the operation changes and mirrors its statistics effect; (J3) the two journals and their revision lists are assigned together and truncated with an index searched in the same list. It does not decide equality of observables before/after a revert as values.",
          "Trusted: go/types + go/ssa (x/tools v0.29.0), the field classification and lifecycle tables in ycheck/rules_c09.go. A violated rule is a concrete construct (file:line, function, field).",
          "SSA dataflow: journal/write pairing (dominance + path reachability), do/undo effect mirror, twin-list provenance of truncation indexes"),
